@@ -17,6 +17,7 @@ import (
 	"math"
 	"math/big"
 	"os"
+	"os/exec"
 	"path/filepath"
 	"regexp"
 	"runtime"
@@ -61,6 +62,12 @@ type CodeS struct {
 	Addr string `json:"addr"`
 	Code string `json:"code"` // hex
 }
+// HistPoint: the scenario's block executed (and discarded) under another configuration / height
+type HistPoint struct {
+	Config string `json:"config"`
+	Height uint64 `json:"height"`
+}
+
 type TxS struct {
 	Source string `json:"source"`
 	Target string `json:"target,omitempty"`
@@ -90,6 +97,7 @@ type Scenario struct {
 	Castor    string   `json:"castor,omitempty"`
 	Txs       []TxS    `json:"txs"`
 	Situation string   `json:"situation,omitempty"`
+	History   []HistPoint `json:"history,omitempty"` // fresh-process comparison: what the process executed before this block
 	CastCut   int      `json:"castCut,omitempty"` // casting-mode scenario: the deadline strikes when the loop reaches its CastCut-th executed transaction
 	Config    string   `json:"config,omitempty"` // "" = dev table with the flag vector; "mainnet" / "robin" = the real schedule at this height
 	// searcher only: run the N executions under these chain heights (common.GetBlockHeight)
@@ -1974,6 +1982,14 @@ func nfold(sc *Scenario, n int) map[string]int {
 // outcomes (fingerprint = "root=… ev=… rc=…").
 func classify(sc *Scenario, res map[string]int) (string, string) {
 	for k := range res {
+		if strings.HasPrefix(k, "FRESH-PROCESS ") {
+			return "process-history-dependence", "the block gives one result in a fresh operating-system process and another one in a process that has executed blocks at other heights / under other chain configurations before (package-level table, cache or side store carried over)"
+		}
+		if strings.HasPrefix(k, "fresh-process-error") {
+			return "fresh-process-error", "the harness could not obtain the fresh-process result"
+		}
+	}
+	for k := range res {
 		if strings.HasPrefix(k, "PROPOSER ") {
 			return "cast-deadline-inconsistent", "casting mode with the deadline striking inside the block: what the proposer computed for the list it packed differs from what a verifier computes for that list"
 		}
@@ -2193,6 +2209,146 @@ func forceMinerTxs(r *hx.Rng, sc *Scenario) {
 }
 
 
+
+// ---------------------------------------------------------------- fresh process versus a process with history
+//
+// The oracle is the same code in a NEW operating-system process: the harness starts itself
+// (mode=one) in an empty scratch directory, where no package-level table, cache or side store has
+// seen any other height or chain configuration, and lets it execute the block once.  The main
+// process first executes the block's transactions under other configurations and at heights on the
+// other side of the activations (and has executed everything the searcher did so far), then
+// executes the block.  Root, receipts and evicted list must be the same.
+
+func freshProcessFingerprint(sc *Scenario) (string, error) {
+	dir, err := ioutil.TempDir("", "c01fresh")
+	if err != nil {
+		return "", err
+	}
+	defer os.RemoveAll(dir)
+	one := *sc
+	one.History = nil
+	j, _ := json.Marshal(&one)
+	f := filepath.Join(dir, "scenario.json")
+	if err := ioutil.WriteFile(f, j, 0644); err != nil {
+		return "", err
+	}
+	self, err := os.Executable()
+	if err != nil {
+		return "", err
+	}
+	cmd := exec.Command(self, "mode=one", "file="+f)
+	cmd.Dir = dir
+	out, err := cmd.Output()
+	for _, l := range strings.Split(string(out), "\n") {
+		if strings.HasPrefix(l, "ONE ") {
+			return l[4:], nil
+		}
+	}
+	return "", fmt.Errorf("fresh process gave no result: %v %s", err, string(out))
+}
+
+// withHistory: execute the block at every history point (discarded), then the block itself
+func withHistory(sc *Scenario) string {
+	for _, h := range sc.History {
+		v := *sc
+		v.Config, v.Height, v.History = h.Config, h.Height, nil
+		v.Name = sc.Name + "-history"
+		if v.Height >= histConfigs[h.Config].Proposal025Block && histConfigs[h.Config].Proposal025Block != 0 {
+			v.Situation = "testing" // beyond Proposal025 after() needs the block chain (calcDifficulty)
+		}
+		applyFlags(&v, v.Height-1, false)
+		root, t := buildParent(&v)
+		hx.Guard(func() string { execOnce(&v, root, t); return "" })
+	}
+	one := *sc
+	one.History = nil
+	applyFlags(&one, one.Height-1, false)
+	root, t := buildParent(&one)
+	return hx.Guard(func() string { return execOnce(&one, root, t).fingerprint() })
+}
+
+func compareWithFreshProcess(sc *Scenario) map[string]int {
+	fresh, err := freshProcessFingerprint(sc)
+	if err != nil {
+		return map[string]int{"fresh-process-error " + err.Error(): 1}
+	}
+	hist := withHistory(sc)
+	if hist == fresh {
+		return map[string]int{fresh: 2}
+	}
+	var hs []string
+	for _, h := range sc.History {
+		hs = append(hs, fmt.Sprintf("%s@%d", h.Config, h.Height))
+	}
+	return map[string]int{"FRESH-PROCESS " + fresh: 1, "AFTER-HISTORY[" + strings.Join(hs, ",") + "] " + hist: 1}
+}
+
+// activations of a table that change how a block is executed
+func activationsOf(c common.ChainConfig) []uint64 {
+	all := []uint64{c.Proposal002Block, c.Proposal005Block, c.Proposal006Block, c.Proposal007Block, c.Proposal012Block, c.Proposal013Block,
+		c.Proposal014Block, c.Proposal015Block, c.Proposal016Block, c.Proposal017Block, c.Proposal018Block, c.Proposal021Block,
+		c.Proposal022Block, c.Proposal023Block, c.Proposal026Block, c.Proposal027Block}
+	var res []uint64
+	for _, a := range all {
+		if a > 300 && a != maxU {
+			res = append(res, a)
+		}
+	}
+	return res
+}
+
+// historyFamily: EVM-heavy blocks under the mainnet / robin / shifted tables at a height right
+// below or above an activation; the history consists of the same transactions executed on the other
+// side of that activation, around the gas-table activations (014, 022, 026) of the same table, under
+// the other tables and under dev.
+func historyFamily(r *hx.Rng, count int, report func(sc *Scenario, res map[string]int)) int {
+	evals := 0
+	envs := []string{"shifted", "mainnet", "robin"}
+	for n := 0; n < count; n++ {
+		env := envs[n%len(envs)]
+		c := histConfigs[env]
+		acts := activationsOf(c)
+		a := acts[r.Intn(len(acts))]
+		if n%2 == 0 { // half of them around the instruction-set activations
+			a = []uint64{c.Proposal014Block, c.Proposal022Block, c.Proposal026Block}[r.Intn(3)]
+			if a <= 300 || a == maxU {
+				a = c.Proposal026Block
+			}
+		}
+		below := r.Bool()
+		sc := genEvmScenario(r, 8000+n)
+		sc.Name = fmt.Sprintf("history-%d", n)
+		sc.Config, sc.P010, sc.P019, sc.P025 = env, false, false, 0
+		sc.Height = a + 1 + uint64(r.Intn(2))
+		if below {
+			sc.Height = a - 1 - uint64(r.Intn(2))
+		}
+		if sc.Height >= c.Proposal025Block {
+			sc.Situation = "testing"
+		}
+		other := a + 2
+		if !below {
+			other = a - 2
+		}
+		sc.History = []HistPoint{{env, other}}
+		for _, g := range []uint64{c.Proposal014Block, c.Proposal022Block, c.Proposal026Block} {
+			if g > 300 && g != maxU {
+				sc.History = append(sc.History, HistPoint{env, g + 1})
+			}
+		}
+		for _, e2 := range envs {
+			if e2 != env {
+				sc.History = append(sc.History, HistPoint{e2, histConfigs[e2].Proposal026Block + 1})
+			}
+		}
+		uniqHashes(sc)
+		res := compareWithFreshProcess(sc)
+		evals += 2 + len(sc.History)
+		report(sc, res)
+	}
+	return evals
+}
+
 // concurrentBatch (evidence, not proof): K different blocks are executed by K goroutines at the same
 // time — as a node does when it casts in a goroutine while verifying incoming blocks — and every
 // result must equal the one the same block gives when executed alone.
@@ -2316,6 +2472,7 @@ func search(a map[string]string, r *hx.Rng) {
 		distinct[sc.Name] = true
 		report(sc, res)
 	}
+	evals += historyFamily(r.Fork(), hx.ArgInt(a, "hist", 9), report)
 	for _, fam := range extraFamilies {
 		evals += fam(r.Fork(), report)
 	}
@@ -2430,6 +2587,16 @@ func main() {
 		histConfigs[env] = common.LocalChainConfig
 	}
 	hxnode.BootServices("dev")
+	{
+		// "shifted": the dev table with the three instruction-set activations (and the sort / nonce
+		// rules) moved to small positive heights, Proposal025 far away: after() runs completely
+		c := common.LocalChainConfig
+		c.Proposal014Block, c.Proposal022Block, c.Proposal026Block = 500, 600, 700
+		c.Proposal015Block, c.Proposal017Block, c.Proposal027Block = 400, 450, 800
+		c.Proposal025Block = maxU
+		c.Proposal010Block, c.Proposal019Block, c.Proposal011Block, c.Proposal004Block = maxU, maxU, maxU, 1
+		histConfigs["shifted"] = c
+	}
 	core.VerifC01InitLoggers()
 	service.InitRewardCalculator(stubB{}, stubG{}, stubF{})
 	service.InitRefundManager(stubG{}, stubF{})
@@ -2437,6 +2604,20 @@ func main() {
 	r := hx.NewRng(hx.SeedFromEnv())
 
 	switch a["mode"] {
+	case "one":
+		// one execution in this (fresh) process; used as the oracle of the history family
+		b, err := ioutil.ReadFile(a["file"])
+		if err != nil {
+			panic(err)
+		}
+		var sc Scenario
+		if err := json.Unmarshal(b, &sc); err != nil {
+			panic(err)
+		}
+		applyFlags(&sc, sc.Height-1, false)
+		root, t := buildParent(&sc)
+		fmt.Println("ONE " + hx.Guard(func() string { return execOnce(&sc, root, t).fingerprint() }))
+		return
 	case "search":
 		search(a, r)
 		return
@@ -2451,7 +2632,9 @@ func main() {
 		}
 		poisonRng = r.Fork() // the replay, too, poisons the process half-way through
 		var res map[string]int
-		if sc.CastCut > 0 && replayHooked != nil {
+		if len(sc.History) > 0 {
+			res = compareWithFreshProcess(&sc)
+		} else if sc.CastCut > 0 && replayHooked != nil {
 			res = replayHooked(&sc)
 		} else {
 			res = nfold(&sc, hx.ArgInt(a, "n", 64))
